@@ -36,6 +36,9 @@ type Batch struct {
 	Ack     int64 // storage op index after the call returned nil; -1 if it never returned / returned an error
 	Failed  bool  // the call returned an error (fate unknown)
 	Discard bool  // explicitly discarded transaction: must never be visible
+	// SeenApplied is set when a read in the same incarnation returned this batch's value although the
+	// call had reported an error: the write was applied, and must not vanish at a clean reopen.
+	SeenApplied bool
 }
 
 // History is a thread-safe list of batches.
